@@ -238,7 +238,12 @@ Definition check_case (c : case) : N :=
             if negb (N.eqb viol 0) then viol
             else match encode sblob sym false msgp m with
                  | Ok kv =>
-                     if kv_eqb kv obs && read_matches (decode sblob sym false (server_set sblob kv) m) r
+                     (* with duplicate body names the msgpack library decodes one entry into fields of
+                        different Go types; the symbolic codec does not define that, so only the
+                        KeyValuePair is compared for such models (the oracle above still applies) *)
+                     if kv_eqb kv obs
+                        && (read_matches (decode sblob sym false (server_set sblob kv) m) r
+                            || negb (unique_roles m))
                      then 0 else 1
                  | Err _ => 1
                  end
